@@ -15,10 +15,16 @@ class C06(Prop):
                 Suite("read_ahead_pipeline(oracle only)", execgen.HEADER, [execgen.gen_readahead_case(rng) for _ in range(n // 4)], compare=False),
                 # the unbounded close after a bounded close that timed out (which cancels the streams) or after cancel_all_streams(): it must
                 # still wait for everything buffered / in flight (oracle only; concurrency limit 1)
-                Suite("close_again(oracle only)", execgen.HEADER, [execgen.gen_reclose_case(rng) for _ in range(n // 3)], compare=False)]
-    def oracle(self, case, recs): return execgen.oracle_c06(case, recs)
+                Suite("close_again(oracle only)", execgen.HEADER, [execgen.gen_reclose_case(rng) for _ in range(n // 3)], compare=False),
+                # Multi::close with 1-4 listeners consuming at different speeds, on the five non-log Multi kinds (oracle only)
+                Suite("multi_close(oracle only)", execgen.HEADER, [execgen.gen_mcase(rng) for _ in range(n // 2)], compare=False)]
+    def oracle(self, case, recs):
+        if case.meta.get("profile") == "mexec": return execgen.oracle_mexec(case, recs)
+        return execgen.oracle_c06(case, recs)
     def nontrivial(self, case, recs):
-        m = case.meta; return m["profile"] == "exec" and len(m["items"]) >= 2 and m["kind"] in ("ff", "fn", "fb")
+        m = case.meta
+        if m["profile"] == "mexec": return m["k"] >= 2 and len(m["items"]) >= 2
+        return m["profile"] == "exec" and len(m["items"]) >= 2 and m["kind"] in ("ff", "fn", "fb")
     def parse_replay(self, text):
         lines = [l for l in text.splitlines() if l.strip() and not l.startswith("#")]
         return Suite("replay", execgen.HEADER, [execgen.parse_case_line(l) for l in lines])
